@@ -9,10 +9,10 @@ import "github.com/ProjectSerenity/firefly/kernel/zzverif"
 const vfK = 6 // array capacity (pool size K plus one object newObject may add)
 
 type vfTree struct {
-	n                                     int
-	live                                  [vfK]bool
+	n                                      int
+	live                                   [vfK]bool
 	parent, prev, next, first, last, index [vfK]uint32
-	head                                  uint32
+	head                                   uint32
 }
 
 const vfInv = InvalidIndex
@@ -392,6 +392,7 @@ func vfUp(s int, levels int) int {
 }
 
 // Well-formed lookup expressions resolve exactly as ACPI's search rules say.
+//
 //verif:split 3
 func Verif_C13_find_wellformed() {
 	tree := vfBuildShape()
@@ -477,6 +478,7 @@ func Verif_C13_find_wellformed() {
 }
 
 // Arbitrary byte strings never crash the lookup and yield not-found or a live node.
+//
 //verif:split 4
 func Verif_C13_find_arbitrary() {
 	tree := vfBuildShape()
